@@ -172,10 +172,10 @@ def dispatch(ctx, rep):
         rep.rule('CMP-1', 'dispatch: get_comparer returns, for each (has_prefix, has_accents) combination of the language flags, the wrapper of the '
                  'comparator with exactly those capabilities (prefix cut-off present iff has_prefix; accent-skip loops present iff has_accents); the prefix '
                  'wrappers pass the constant 4; every word search obtains its comparator from get_comparer(lang) for the same lang it searches')
-        rep.instances(len(cmps), 4, 'comparator wrappers')
+        rep.instances(len(cmps), 2, 'comparator wrappers')
         ft = {o: n for o, (n, s) in P.field_table(LANG_STRUCT).items()}
         ws = feasible_walks(P, gc)
-        rep.instances(len(ws), 4, 'paths of get_comparer')
+        rep.instances(len(ws), 2, 'paths of get_comparer')
         seen = {}
         for w in ws:
             flags = {}
@@ -233,7 +233,7 @@ def dispatch(ctx, rep):
                     ok = ci is not None and ci.op == 'call' and P.call_target(ci) == ('direct', gc.name) and ci.ops[0] == i.ops[0]
                     rep.check(ok, 'search at %s uses get_comparer of the language it searches' % i.loc, i.loc, '%s search site' % base_name(f.name),
                               sample={'site': i.loc}, key='CMP-1|site|%s' % base_name(f.name))
-        rep.instances(n, 3, 'word search sites')
+        rep.instances(n, 2, 'word search sites')
 
 
 def loc_gc(f):
@@ -267,7 +267,7 @@ def skip_normalised(ctx, rep):
                           '%s: %s[%d] read without skipping combining marks' % (base_name(g.name), 'key' if fam[0] == 0 else 'elm', off),
                           detail={'offset': off, 'cursor_is_skip_loop_exit': base[0] == 'i' and base[1] in norm},
                           sample={'function': g.name, 'site': i.loc, 'offset': off}, key='CMP-3|%s|%s[%d]' % (base_name(g.name), 'key' if fam[0] == 0 else 'elm', off))
-        rep.instances(n, 2, 'accent-skipping comparators')
+        rep.instances(n, 1, 'accent-skipping comparators')
 
 
 def counter_pairing(ctx, rep):
@@ -326,7 +326,7 @@ def counter_pairing(ctx, rep):
             rep.check(dom, 'every increment of the character counter follows the "bytes equal" outcome in the same iteration', step.loc,
                       '%s: counter incremented without a matched character' % base_name(g.name), detail={'equality_edges': eqedges, 'increment_block': step.bb},
                       key='CMP-6|%s|pairing' % base_name(g.name))
-        rep.instances(n, 2, 'prefix comparators')
+        rep.instances(n, 1, 'prefix comparators')
 
 
 def edge_dominates_from_header(f, header, a, b, x):
@@ -445,7 +445,7 @@ def cursor_safety(ctx, rep):
                  'byte and only where the byte under it is known non-NUL on every path (must-dataflow over the outcomes of *c != 0, of the non-ASCII '
                  'test, of *c == <non-zero constant>, and of equality with a byte known non-NUL); c[k] with k >= 1 is read only for k = 1 and only where '
                  'c[0] is known non-NUL')
-        rep.instances(len(targets), 7, 'cursor functions')
+        rep.instances(len(targets), 4, 'cursor functions')
         nadv = 0
         for name, (g, args) in sorted(targets.items()):
             fams = {a: cursor_family(g, a) for a in args}
@@ -465,7 +465,7 @@ def cursor_safety(ctx, rep):
                     rep.check(ok, '%s at %s: cursor byte known non-NUL and step is 1' % (what, i.loc), i.loc, '%s: %s past a byte not known non-NUL' % (base_name(g.name), what),
                               detail={'step': k, 'known_non_nul': nn}, sample={'function': g.name, 'site': i.loc, 'kind': what} if nadv <= 3 else None,
                               key='CUR-1|%s|%s|%s' % (base_name(g.name), what, i.loc.split(':')[-1]))
-        rep.instances(nadv, 15, 'cursor advance / look-ahead sites')
+        rep.instances(nadv, 8, 'cursor advance / look-ahead sites')
 
 
 def conj_terms(g, v):
